@@ -43,7 +43,7 @@ CHECKS = {
  "C04": dict(technique="invariant at a hook (H-slot: access through a handle to a slot the collector freed) + poisoning of freed slots + differential comparison with the reference machine, under the engine's own collections after cyclic garbage (natural cadence) and under forced full collections at every k-th allocation",
              text="Exploration: root-placement templates (pending argument, let temporary, closure capture, open/closed continuation, exception handler incl. one reachable only through a continuation, wind thunk, global and shadowed global, nested containers, another thread's stack and thread-local slot, the value being allocated) run with a forced full collection (through the engine's own mark/stop-the-world code) at every 1st/3rd/jittered allocation, JIT on/off, top level and module.",
              note="Trusted: hook H-gc drives the engine's own mark code; poisoning makes stale reads visible. Values returned to the host (not rooted) are not inspected.", ref="DESIGN.md §5 C04"),
- "C05": dict(technique="Miri (UB / use-after-free / data-race interpreter, many scheduler seeds) + native stress of a shadow-model history driver for steel-rc",
+ "C05": dict(technique="Miri (UB / use-after-free / data-race interpreter, many scheduler seeds) + native stress of a shadow-model history driver for steel-rc, each history plainly and under a quarantine hook (H-rcq: destroyed boxes poisoned and kept, entry points report being handed one; injected delay after a published merge) + two targeted schedule families (owner's last drop / owner's explicit merge against a foreign last drop)",
              text="Exploration: seeded histories of new/clone/drop/move/get_mut/make_mut/try_unwrap/merge/thread-exit on <=3 threads with an exact shadow count (sequential mode) or schedule-independent assertions (concurrent mode): ~10^5 (quick) / 10^7 (thorough) native operations and 16 (quick) / 512 (thorough) Miri executions.",
              note="Trusted: Miri's model of Rust semantics; schedules are sampled, not enumerated. Only steel-rc is interpreted by Miri (steel-core cannot run under it).", ref="DESIGN.md §5 C05"),
  "C15": dict(technique="invariants at hooks (H-sync: a thread found executing while its context pointer is still published as parked; per-thread 'being inspected' flag set around every foreign read/write of a thread's state by a stopper and checked by the thread at every instruction boundary and when it leaves a safepoint; H-slot freed-slot-access monitor) under thread stress with seeded delays injected at the handshake's suspension points and forced collections through the engine's own stop-the-world code; crash monitor; result oracles for stack-only box chains, global visibility and mutex-protected counters",
@@ -72,7 +72,7 @@ man = {
  "version": 1,
  "setup_cmd": "./setup.sh",
  "hooks": {
-  "guard": "cargo feature `verif` on steel-core (and steel-rc)",
+  "guard": "cargo feature `verif` on steel-core (and steel-rc; the steel-rc quarantine additionally needs steel_rc::verif::enable() at run time, which only /verif/rcmiri calls)",
   "enable": "the harness crate /verif/harness depends on /repo/crates/steel-core by path with features [..workspace set.., \"verif\"]; every ./check run rebuilds it from /repo's working tree (cargo build --release --offline, target dir /verif/.build)",
   "baseline_off_cmd": "/verif/baseline_off.sh",
   "source_commits": [],
